@@ -92,6 +92,31 @@ func dice(rng *rng.RNG) func(int) int {
 	}
 }
 
+// checkedRandomRange wraps randomRange to refuse bounds for which no random integer can be drawn
+func checkedRandomRange(rng *rng.RNG) func(int, int) (int, error) {
+	unchecked := randomRange(rng)
+	return func(lowerBound, upperBound int) (int, error) {
+		if upperBound < lowerBound {
+			return 0, fmt.Errorf("upper bound %d is lower than lower bound %d", upperBound, lowerBound)
+		}
+		if span := upperBound - lowerBound + 1; span <= 0 {
+			return 0, fmt.Errorf("range between %d and %d is too wide", lowerBound, upperBound)
+		}
+		return unchecked(lowerBound, upperBound), nil
+	}
+}
+
+// checkedDice wraps dice to refuse a number of sides lower than one
+func checkedDice(rng *rng.RNG) func(int) (int, error) {
+	unchecked := dice(rng)
+	return func(sides int) (int, error) {
+		if sides < 1 {
+			return 0, fmt.Errorf("a dice needs at least one side, got %d", sides)
+		}
+		return unchecked(sides), nil
+	}
+}
+
 // round rounds f to the nearest integer
 func round(f float64) float64 {
 	return math.Round(f)
